@@ -5,7 +5,7 @@ Three separately keyed clauses per write (create_track and update):
  (2) fixed point      read(write(read)) == read
  (3) no silent corruption: a write that returned is followed by a snapshot() that returns.
 """
-from .. import gen_snap as GS, runner
+from .. import gen_hist as GH, gen_snap as GS, runner
 from ..framework import ALL_SCHEMAS, family, case_hash
 
 LEVEL = "exploration"
@@ -36,10 +36,11 @@ def v1_bpm_policy(written, got):
     return "truncated-to-integer" if gotv == float(int(GS.undbits(b))) else "unexplained"
 
 
-def build_case(cid, schema, sA, sB, simple_first, bystander):
+def build_case(cid, schema, sA, sB, simple_first, bystander, prelude=()):
     # a bystander track: writing to t0 must never change it
-    ops = [{"op": "create_temporary", "schema": schema}, {"op": "create_track", "as": "tb", "snap": bystander},
-           {"op": "snapshot", "t": "tb"}]
+    # (prelude: ops that shape the library first - id counters moved up, filler tracks - before anything is judged)
+    ops = [{"op": "create_temporary", "schema": schema}] + list(prelude) + [{"op": "create_track", "as": "tb", "snap": bystander},
+                                                                       {"op": "snapshot", "t": "tb"}]
     if simple_first:
         ops.append({"op": "create_track", "as": "t0", "snap": {"relative_path": GS.hx("seed/first.mp3")}})
         ops.append({"op": "update", "t": "t0", "snap": sA})
@@ -49,7 +50,7 @@ def build_case(cid, schema, sA, sB, simple_first, bystander):
             {"op": "update", "t": "t0", "snap": sB},
             {"op": "snapshot", "t": "t0"}, {"op": "update_last", "t": "t0"}, {"op": "snapshot", "t": "t0"},
             {"op": "snapshot", "t": "tb"}]
-    return {"id": cid, "schema": schema, "ops": ops, "_sA": sA, "_sB": sB, "_simple": simple_first}
+    return {"id": cid, "schema": schema, "ops": ops, "_sA": sA, "_sB": sB, "_simple": simple_first, "_off": len(prelude)}
 
 
 def judge_case(ctx, res):
@@ -73,19 +74,28 @@ def judge_case(ctx, res):
     # locate the write steps
     i = 1
     writes = []  # (write_index, written_snapshot, opname)
+    off = case.get("_off", 0)
+    if off and any("exc" in e for e in evs[1:1 + off]):
+        ctx.fail_harness("the prelude of a C01 case failed: %s" % [e["exc"]["type"] for e in evs[1:1 + off] if "exc" in e][:1])
+        return
+    if off:
+        ctx.bump("cases_with_shaped_library")
     if case["_simple"]:
-        writes.append((4, case["_sA"], "update"))
-        base = 5
+        writes.append((off + 4, case["_sA"], "update"))
+        base = off + 5
     else:
-        writes.append((3, case["_sA"], "create_track"))
-        base = 4
+        writes.append((off + 3, case["_sA"], "create_track"))
+        base = off + 4
     writes.append((base + 3, case["_sB"], "update"))
     # the bystander before and after everything
-    if len(evs) == len(ops) and "ret" in evs[2] and "ret" in evs[-1]:
+    b0 = off + 2
+    if len(evs) == len(ops) and "ret" in evs[b0] and "ret" in evs[-1]:
         ctx.bump("bystander_checks")
-        for f in GS.snapshots_equal(evs[2]["ret"], evs[-1]["ret"]):
+        if isinstance(evs[off + 1].get("ret"), int):
+            ctx.extra["max_track_id_seen"] = max(ctx.extra.get("max_track_id_seen", 0), evs[off + 1]["ret"])
+        for f in GS.snapshots_equal(evs[b0]["ret"], evs[-1]["ret"]):
             ctx.violation(f"other-track-changed {fam} {f}", f"{schema}: create/update of one track changed {f} of another track", wit)
-    elif len(evs) == len(ops) and "ret" in evs[2] and "exc" in evs[-1]:
+    elif len(evs) == len(ops) and "ret" in evs[b0] and "exc" in evs[-1]:
         ctx.violation(f"other-track-changed {fam} snapshot-throws", f"{schema}: snapshot() of a bystander track throws after writes to another track", wit)
     for wi, written, opname in writes:
         ev = evs[wi]
@@ -161,7 +171,15 @@ def run(ctx):
             sA = GS.gen_snapshot(ctx.rng, schema, rich=rich, big=big, allow_nul=True, borderline=True)
             sB = GS.gen_snapshot(ctx.rng, schema, rich=(k % 2 == 0), borderline=True)
             by = GS.gen_snapshot(ctx.rng, schema, rich=True, hostile_sentinels=False)
-            cases.append(build_case("c%d" % n, schema, sA, sB, simple_first=(k % 4 == 3), bystander=by))
+            # one case in eight works in a library shaped like a long-lived one: track ids around 2^31 / 2^32 / 2^53, and
+            # a dozen (thorough: up to 150) other tracks already present
+            prelude = []
+            if k % 8 == 5:
+                prelude += GH.first_id_prelude(schema, GH.FIRST_IDS[(k // 8) % len(GH.FIRST_IDS)])
+            if k % 8 in (5, 6):
+                nfill = 12 if ctx.tier == "quick" else ctx.rng.choice([12, 40, 150])
+                prelude += [{"op": "create_track", "as": "f%d" % j, "snap": {"relative_path": GS.hx("filler/%03d.mp3" % j)}} for j in range(nfill)]
+            cases.append(build_case("c%d" % n, schema, sA, sB, simple_first=(k % 4 == 3), bystander=by, prelude=prelude))
             n += 1
     for c in cases[:2]:
         ctx.sample({"schema": c["schema"], "written": {k: (v if len(str(v)) < 200 else str(v)[:200]) for k, v in c["_sA"].items()}})
@@ -186,9 +204,11 @@ def replay(ctx, doc):
     case = {"id": "replay", "schema": r["schema"], "ops": r["ops"]}
     # recover the written snapshots from the ops
     ops = r["ops"]
-    simple = ops[3]["op"] == "create_track" and ops[4]["op"] == "update"
+    off = next(i for i, o in enumerate(ops) if o.get("as") == "tb") - 1
+    simple = ops[off + 3]["op"] == "create_track" and ops[off + 4]["op"] == "update"
     case["_simple"] = simple
-    case["_sA"] = ops[4]["snap"] if simple else ops[3]["snap"]
-    case["_sB"] = ops[8 if simple else 7]["snap"]
+    case["_off"] = off
+    case["_sA"] = ops[off + 4]["snap"] if simple else ops[off + 3]["snap"]
+    case["_sB"] = ops[off + (8 if simple else 7)]["snap"]
     res = runner.run_one(case, cfg="plain")
     judge_case(ctx, res)
